@@ -16,9 +16,8 @@ type ColAuto struct {
 
 // Infer and initialize Column from ColumnType.
 func (c *ColAuto) Infer(t ColumnType) error {
-	if c.Data != nil && !c.Type().Conflicts(t) {
+	if c.Data != nil && c.DataType == t {
 		// Already ok.
-		c.DataType = t // update subtype if needed
 		return nil
 	}
 	if v := inferGenerated(t); v != nil {
